@@ -5,6 +5,8 @@ package modbus
 import (
 	"context"
 	"net"
+
+	"github.com/aldas/go-modbus-client/packet"
 )
 
 // C14 — (claimed scope) lock discipline of a shared client, a per-path sequential fact:
@@ -140,4 +142,84 @@ func VH_C14_reply_ownership() {
 		vndAssert(vhEqualBytes(respB.Bytes(), b.reply), "the second caller receives the reply to its own request")
 	}
 	vndAssert(vhEqualBytes(respA.Bytes(), snap), "a reply already handed to a caller is not changed by a later exchange on the same client")
+}
+
+// vhRacyRequest starts a concurrent operation on the same client at the moment the request is asked for its bytes
+// (at == 0) or for its expected response length (at == 1), i.e. while Do is running.
+type vhRacyRequest struct {
+	inner packet.Request
+	at    int
+	fire  func()
+	fired bool
+}
+
+func (r *vhRacyRequest) FunctionCode() uint8 { return r.inner.FunctionCode() }
+func (r *vhRacyRequest) Bytes() []byte {
+	if r.at == 0 && !r.fired {
+		r.fired = true
+		r.fire()
+	}
+	return r.inner.Bytes()
+}
+func (r *vhRacyRequest) ExpectedResponseLength() int {
+	if r.at == 1 && !r.fired {
+		r.fired = true
+		r.fire()
+	}
+	return r.inner.ExpectedResponseLength()
+}
+
+// VH_C14_concurrent_op: one goroutine-level interleaving that the harness can pin both symbolically and natively:
+// while a Do call is in progress (at the point where it encodes the request) another goroutine calls Close, Connect
+// or Do on the same client. The first Do must not panic and must still return the reply to its own request; the
+// concurrent operation must take effect only after it (the executor parks a goroutine that blocks on the client's
+// mutex and runs it when the mutex is released; natively the goroutine simply blocks).
+func VH_C14_concurrent_op() {
+	mode := vndParam("mode") // 0 TCP, 1 RTU network client
+	op := vndParam("op")     // 0 Close, 1 Connect, 2 a second Do
+	a := vhMakeExchange(2, mode, 1, false)
+	b := vhMakeExchange(2, mode, 1, false)
+	stream := append(append([]byte{}, a.reply...), b.reply...)
+	s := &vhScript{reply: stream, cuts: []int{len(a.reply), len(stream)}, pauses: []bool{false, false}, paused: []bool{false, false}}
+	c := vhNewClient(mode, s, false)
+	dials := 0
+	c.net.dialContextFunc = func(ctx context.Context, address string) (net.Conn, error) {
+		dials++
+		return &vhConn{s: s}, nil
+	}
+	var respB packet.Response
+	var errB error
+	doneB := false
+	req := &vhRacyRequest{inner: a.req, at: vndParam("at")}
+	req.fire = func() {
+		go func() {
+			switch op {
+			case 0:
+				c.net.Close()
+			case 1:
+				c.net.Connect(c.ctx, "again")
+			default:
+				respB, errB = c.net.Do(c.ctx, b.req)
+			}
+			doneB = true
+		}()
+		vndYield()
+	}
+	respA, errA := c.net.Do(c.ctx, req)
+	vndSettle()
+	vndCover("concurrent-op")
+	vndAssert(doneB, "the concurrent operation completes")
+	vndAssert(errA == nil && respA != nil, "the call in progress is not disturbed by a concurrent Close/Connect/Do")
+	if errA == nil && respA != nil {
+		vndAssert(vhEqualBytes(respA.Bytes(), a.reply), "the call in progress returns the reply to its own request")
+	}
+	switch op {
+	case 0:
+		vndAssert(s.closed == 1, "the concurrent Close closes the connection (after the exchange)")
+	case 1:
+		vndAssert(dials == 1, "the concurrent Connect dials once")
+	default:
+		vndAssert(errB == nil && respB != nil && vhEqualBytes(respB.Bytes(), b.reply), "the concurrent Do is carried out after the first and receives the reply to its own request")
+	}
+	vndAssert(len(s.written) >= 1 && vhEqualBytes(s.written[0], a.req.Bytes()), "request frames are not interleaved on the wire")
 }
